@@ -125,6 +125,8 @@ func escape(s string, m map[rune]string) string {
 			v = append(v, `\`+string(c))
 		default:
 			var s string
+			char := c
+
 			if IsControl(c) {
 				s += `\C-`
 				c = Decontrol(c)
@@ -135,10 +137,13 @@ func escape(s string, m map[rune]string) string {
 				c = Demeta(c)
 			}
 
-			if unicode.IsPrint(c) {
+			// The prefixes above only read back when followed by a plain printable
+			// character (a backslash could start \C-\M- or \M-\C-): otherwise, use
+			// the hexadecimal notation for the original character.
+			if unicode.IsPrint(c) && c != '\\' {
 				s += string(c)
 			} else {
-				s += fmt.Sprintf(`\x%2x`, c)
+				s = fmt.Sprintf(`\x%02x`, char)
 			}
 
 			v = append(v, s)
